@@ -6,6 +6,7 @@
 #include "../Stream/Writer.h"
 #include <cstdint>
 #include <stdexcept>
+#include <string>
 
 namespace OP2Utility::Tileset
 {
@@ -106,6 +107,15 @@ namespace OP2Utility::Tileset
 		
 		SectionHeader paletteHeader{ DefaultTagData, DefaultPaletteHeaderSize };
 		SwapPaletteRedAndBlue(tileset.palette);
+
+		// The palette section always holds DefaultPaletteHeaderSize bytes (256 colors). A bitmap that declares fewer
+		// used colors carries a shorter palette: pad it, otherwise the written sections do not match their headers
+		constexpr std::size_t paletteEntryCount = DefaultPaletteHeaderSize / sizeof(Color);
+		if (tileset.palette.size() > paletteEntryCount) {
+			throw std::runtime_error("Tileset palette contains " + std::to_string(tileset.palette.size()) +
+				" colors. A tileset palette may hold at most " + std::to_string(paletteEntryCount) + " colors");
+		}
+		tileset.palette.resize(paletteEntryCount, DiscreteColor::Black);
 
 		SectionHeader pixelHeader{ DefaultTagData, CalculatePixelHeaderLength(absoluteHeight) };
 
